@@ -50,7 +50,7 @@ class CtorLooksUp(Exception):
     TABLE = {"known": 1}
 
     def __init__(self, message: str) -> None:
-        super().__init__(message)
+        super().__init__("lookup: " + message)
         self.kind = self.TABLE[message]
 
 
